@@ -48,6 +48,10 @@ def scenarios(tier):
                 out.append(Scenario('abort', cause=cause, k=k, pat=pat, n=2))
     for pat in ('obedient',):
         out.append(Scenario('respawn_off', pat=pat, n=2))
+    # on-demand watcher on a real listening socket next to an ordinary watcher that was stopped by request
+    for ev in ('none', 'connect'):
+        for tail in ('check', 'incr-od', 'die-od'):
+            out.append(Scenario('ondemand', ev=ev, tail=tail, nodet=True))
     # phase two: stopped stays stopped
     maxlen = 2 if tier == 'quick' else 3
     ops = [o for o in TAIL_OPS if o != 'die-none']
@@ -85,6 +89,8 @@ def run(scn, ch):
         return _run_respawn_off(scn, ch, res)
     if scn.name == 'tail':
         return _run_tail(scn, ch, res)
+    if scn.name == 'ondemand':
+        return _run_ondemand(scn, ch, res)
     raise ValueError(scn.name)
 
 
@@ -346,3 +352,59 @@ def _run_tail(scn, ch, res):
         return finish(world, res)
     except Abort as e:
         return finish(world, res, aborted=str(e))
+
+
+def _run_ondemand(scn, ch, res):
+    """An on_demand watcher (starts at the first connection to its socket) and an ordinary watcher stopped by request:
+    only the on-demand watcher may be started by a socket event."""
+    import socket
+    from circus.sockets import CircusSocket
+    sock = CircusSocket.load_from_config({'name': 'web', 'host': '127.0.0.1', 'port': '0'})
+    world = World(ch, [WSpec('od', numprocesses=1, graceful_timeout=G, on_demand=True, use_sockets=True,
+                             cmd='worker --fd $(circus.sockets.web)'),
+                       WSpec('a', numprocesses=1, graceful_timeout=G)], sockets=[sock])
+    client = None
+    try:
+        world.boot()
+        world.run(until=lambda w: w.boot_future.done(), horizon=5)
+        world.settle(1)
+        od, wa = world.watcher('od'), world.watcher('a')
+        res.check('C02.ondemand_waits', not world.procs_of('od') and od.status() == 'stopped',
+                  lambda: 'on_demand watcher started %d workers before any connection' % len(world.procs_of('od')),
+                  where='watcher.spawn_processes')
+        world.request('stop', name='a')
+        world.run(until=lambda w: w.slot() is None, horizon=3)
+        n_a = len(world.procs_of('a'))
+        if scn.ev == 'connect':
+            client = socket.socket(socket.AF_INET, socket.SOCK_STREAM)
+            client.settimeout(0.5)
+            client.connect(world.arbiter.sockets['web'].getsockname())
+        world.settle(2)
+        if scn.tail == 'incr-od':
+            world.request('incr', name='od')
+            world.run(until=lambda w: w.slot() is None, horizon=2)
+        elif scn.tail == 'die-od':
+            for p in world.procs_of('od', [RUNNING]):
+                world.die(p.pid, EXIT1)
+        world.settle(2)
+        if scn.ev == 'connect':
+            res.check('C02.ondemand_starts_on_connection', len(world.procs_of('od', [RUNNING])) >= 1,
+                      lambda: 'a connection arrived on the socket but the on_demand watcher has no worker (status %s)' % od.status(),
+                      where='arbiter.manage_watchers')
+        else:
+            res.check('C02.ondemand_waits', not world.procs_of('od', [RUNNING]) or scn.tail == 'incr-od',
+                      lambda: 'on_demand watcher runs %d workers without any connection (tail %s)'
+                      % (len(world.procs_of('od', [RUNNING])), scn.tail), where='watcher.spawn_processes')
+        res.check('C02.stays_stopped', len(world.procs_of('a')) == n_a and wa.status() == 'stopped',
+                  lambda: 'watcher a was stopped by request; a %s for the on_demand watcher od started %d worker(s) for it (status %s)'
+                  % ('socket event' if scn.ev == 'connect' else 'periodic check', len(world.procs_of('a')) - n_a, wa.status()),
+                  where='arbiter.manage_watchers/socket-event-starts-all' if scn.ev == 'connect' else 'watcher.manage_processes')
+        res.outcome = _outcome(world)
+        return finish(world, res)
+    except Abort as e:
+        return finish(world, res, aborted=str(e))
+    finally:
+        if client is not None:
+            client.close()
+        if not world.closed:
+            world.close()
